@@ -259,7 +259,7 @@ func smtextDrive(args []string) error {
 				}
 				return out
 			}
-			rows = pick(nr, false)
+			rows = pick(nr, true) // '#' is a legal symbol as long as it does not open a line: such rows are indented
 			cols = pick(nc, nc >= 2)
 			if r.Intn(3) == 0 && nr == nc {
 				copy(rows, cols) // same alphabet on both sides
@@ -319,7 +319,7 @@ func smtextDrive(args []string) error {
 					cp[i] = i
 				}
 			}
-			if cols[cp[0]] == "#" { // '#' must not open a line
+			if cols[cp[0]] == "#" && r.Intn(2) == 0 { // '#' must not open a line: move it, or indent the header (below)
 				cp[0], cp[len(cp)-1] = cp[len(cp)-1], cp[0]
 			}
 			exotic := !plain && r.Intn(4) == 0
@@ -366,7 +366,7 @@ func smtextDrive(args []string) error {
 				hdr = append(hdr, cols[j])
 			}
 			lay.data = append(lay.data, len(lay.lines))
-			lay.lines = append(lay.lines, tline(hdr, !plain && r.Intn(2) == 0))
+			lay.lines = append(lay.lines, tline(hdr, (!plain && r.Intn(2) == 0) || hdr[0] == "#"))
 			indentRows := !plain && r.Intn(4) == 0
 			for _, i := range rp {
 				decorate()
@@ -375,7 +375,7 @@ func smtextDrive(args []string) error {
 					toks = append(toks, cells[i][j])
 				}
 				lay.data = append(lay.data, len(lay.lines))
-				lay.lines = append(lay.lines, tline(toks, indentRows))
+				lay.lines = append(lay.lines, tline(toks, indentRows || rows[i] == "#"))
 			}
 			decorate()
 			lay.eol = "\n"
